@@ -378,7 +378,7 @@ def ob_reset(sess, params):
 def obligations(tier):
     obs = []
     for name, fn in (("limits", ob_limits), ("error", ob_error), ("reset", ob_reset)):
-        obs.append(Ob(name, A.run_obligation(fn, None, 120000), params={}, kind="e2", replay=replay, budget=900,
+        obs.append(Ob(name, A.run_obligation(fn, "tactic:qffp", 30000, alts=[(None, 240000)]), params=dict(xcheck=(tier == "thorough"), xcheck_max=1), kind="e2", replay=replay, budget=900,
                       bounds=dict(step="one action() from an arbitrary state", values="all doubles incl. NaN, +-inf",
                                   arithmetic="uninterpreted *, /, +, wrap2, blend0")))
     return obs
